@@ -12,8 +12,8 @@ DISTINCT_RULE = (
     "packages of 1..3 orders of each kind, cancel reports reordered / omitted, BetfairError subclasses on attempts 1..4, exchange-side completion between request and "
     "response; plus simulation runs where orders complete in flight; distinct = distinct (kind, n, outcome vector, error plan, pre-event) plans executed"
 )
-RULES = ["post-state", "count", "retry-bound", "attribution", "sim-effect"]
-MINIMA = {"quick": {"rule_post-state": 1500, "rule_count": 1500, "rule_attribution": 600, "rule_sim-effect": 4000}, "thorough": {"rule_post-state": 8000}}
+RULES = ["post-state", "count", "retry-bound", "attribution", "sim-effect", "paper-call", "paper-quiescent"]
+MINIMA = {"quick": {"rule_post-state": 1500, "rule_count": 1500, "rule_attribution": 600, "rule_sim-effect": 4000, "rule_paper-call": 3000, "rule_paper-quiescent": 3000}, "thorough": {"rule_post-state": 8000}}
 ASSUMPTIONS = [
     "the exchange double returns real betfairlightweight resources built from API-format JSON (DESIGN.md Appendix B')",
     "handler granularity: the execution pool is replaced by a controllable executor; the retry back-off sleep is virtual",
@@ -82,6 +82,10 @@ def plan(tier, seed):
     nsim = 4000 if tier == "quick" else 40000
     for i in range(nsim):
         cases.append({"mode": "sim", "seed": seed, "idx": i, "profile": ("hostile", "fastlat", "multi")[i % 3]})
+    # paper trading: the simulated execution on its thread pool inside a live Flumine (orders complete between request and response
+    # by being matched while the call waits in the pool; the poller reports completion later)
+    for i in range(400 if tier == "quick" else 8000):
+        cases.append({"mode": "paper", "seed": seed, "idx": i, "len": 40 + i % 50})
     return cases
 
 
@@ -303,10 +307,34 @@ def run_sim(desc, out):
                     out.v("replacement-attributed-to-wrong-order", {"kind": "REPLACE", "exec": "Simulated"}, price=o.order_type.price, requested={c: want[c] for c in cands})
 
 
+def run_paper(case, out):
+    from .. import paperwalk
+
+    def observe(r, m, phase):
+        if phase != "book":
+            return
+        # quiescent point: every queued call answered and one poll processed
+        for o in m.blotter:
+            out.rule("paper-quiescent")
+            if o.status is not None and o.status.name in ("CANCELLING", "UPDATING", "REPLACING"):
+                out.v("order-left-in-flight", {"kind": o.status.name, "exec": "Paper", "outcome": "-"}, order=r.tr.okey(o), remaining=o.size_remaining, matched=o.size_matched)
+            if o.trade.status.name == "PENDING":
+                out.v("trade-left-pending", {"exec": "Paper"}, order=r.tr.okey(o))
+
+    r = paperwalk.walk(case, observe)
+    out.c("rule_paper-call", r.tr.counters.get("paper_responses", 0))
+    for pe in r.pool_errors:
+        out.v("execution-call-raised", {"exec": "Paper", "call": pe["call"], "exc": pe["exc"], "where": pe["where"]}, error=pe)
+    out.d("paper:%d:%d" % (min(len(r.orders), 12), len(r.mids)))
+    out.c("paper_walks")
+
+
 def run(case):
     out = O.Out(PROPERTY)
     if case["mode"] == "live":
         run_live(case, out)
+    elif case["mode"] == "paper":
+        run_paper(case, out)
     else:
         run_sim(case, out)
     return out.result(sample={"plan": case} if case.get("mode") == "live" and case.get("n") == 2 and case.get("out") == [1, 0] else None)
